@@ -89,7 +89,7 @@ func parseMinutes(s string) (int, error) {
 
 func goTime(day, min int) gotime.Time {
 	y, m, d := model.CivilFromDays(day)
-	return gotime.Date(y, gotime.Month(m), d, min/60, min%60, 17, 0, gotime.Local)
+	return gotime.Date(y, gotime.Month(m), d, min/60, min%60, 17, 0, gotime.UTC)
 }
 
 func checkC02(c caseC02) (Outcome, error) {
